@@ -77,9 +77,11 @@ def main():
                 print("%s %s %s" % (tag, pid, rel))
                 if rc != 0:
                     bad += rc == 1
-                    for l in text.strip().splitlines()[-8:]:
-                        if l.startswith(("  R-", "ANALYSIS")):
+                    shown = 0
+                    for l in text.splitlines():
+                        if l.startswith(("  R-", "ANALYSIS")) and shown < 6:
                             print("      " + l[:300])
+                            shown += 1
             finally:
                 open(path, "w").write(orig)
     finally:
